@@ -290,6 +290,16 @@ func (s *clientSocket) finishUpgradeTo(t ClientTransport, c *transport.Callbacks
 	s.transportMu.Lock()
 	defer s.transportMu.Unlock()
 
+	// The socket might have been closed while the upgrade was in progress.
+	// Do not switch to the new transport. Nobody would close it, and it would
+	// keep answering the pings of the server on behalf of a closed socket.
+	select {
+	case <-s.closeChan:
+		t.Close()
+		return
+	default:
+	}
+
 	old := s.transport
 	s.transport = t
 
